@@ -160,7 +160,7 @@ def main():
     import props
     pid = a.property
     P = props.PROPS[pid]
-    use_mpi = bool(P.get('mpi')) or pid in ('C02', 'C04', 'C06', 'C10', 'C12', 'C16', 'C19', 'C20')
+    use_mpi = bool(P.get('mpi')) or pid in ('C02', 'C03', 'C04', 'C06', 'C10', 'C11', 'C12', 'C16', 'C19', 'C20')
     sanitizer_viol = []
     st = prepare(mpi=use_mpi)
     broken = []           # stages / obligations that no longer check
